@@ -71,6 +71,9 @@ func (r *Rand) Chance(num, den int) bool { return r.Intn(den) < num }
 // Pick returns one of the ints.
 func (r *Rand) Pick(v ...int) int { return v[r.Intn(len(v))] }
 
+// PickS returns one of the strings.
+func (r *Rand) PickS(v ...string) string { return v[r.Intn(len(v))] }
+
 // Weighted picks an index with probability proportional to w[i] (w[i]>=0).
 func (r *Rand) Weighted(w []int) int {
 	t := 0
